@@ -26,9 +26,11 @@ Proof. exact c01_handover_at_expected. Qed.
 
 (* "... never moves backwards except through an explicit reset": the store reset that ends an epoch is never spontaneous.
    With no reset option configured, an event whose log contains a StoreReset is a directly processed Logon carrying
-   ResetSeqNumFlag=Y, the ResetSeqTime crossing, or the application sending a Logon carrying 141=Y (or it handles buffered
-   frames while such a Logon may be buffered): c07_cause_check (Session/SpecCause.v, code 705; C07 cites the same lemma)
-   reports nothing on any trace.  In particular a Logon carrying ResetSeqNumFlag=N, or none, resets nothing.  The check
+   ResetSeqNumFlag=Y that the validator and the application (FromAdmin) accept, the ResetSeqTime crossing, or the application
+   sending a Logon carrying 141=Y (or it handles buffered frames while such an accepted Logon may be buffered):
+   c07_cause_check (Session/SpecCause.v, code 705; C07 cites the same lemma) reports nothing on any trace.  In particular a
+   Logon carrying ResetSeqNumFlag=N, or none, resets nothing, and neither does a Logon carrying ResetSeqNumFlag=Y that
+   FromAdmin refuses or the validator rejects (the expected number does not fall back to 1 on a refused Logon).  The check
    evaluates this predicate on the implementation's log together with c01_check. *)
 Theorem c01_reset_only_when_explicit : forall (c : cfg) (es : list event),
   c07_cause_check c (combine es (map obs_of (run_trace es (init_sess c)))) = [].
